@@ -248,9 +248,10 @@ def install(ex):
         if lo >= hi:
             return none()
         b = base_ref(ex_, st, r)
-        return [([], some(ex_.const_int(lo, 'usize')), upd(b, rg.with_field(0, ex_.const_int(lo + 1, 'usize'))))]
-    ex.stub(r'<(std::ops::)?Range<usize> as Iterator>::next$', range_next, 'Range<usize>::next on concrete bounds')
-    ex.stub(r'<(std::ops::)?Range<usize> as IntoIterator>::into_iter$', lambda ex_, st, c, A: A[0], 'Range::into_iter')
+        ty = re.search(r'Range<(\w+)>', c).group(1)
+        return [([], some(ex_.const_int(lo, ty)), upd(b, rg.with_field(0, ex_.const_int(lo + 1, ty))))]
+    ex.stub(r'<(std::ops::)?Range<[ui](8|16|32|64|size)> as Iterator>::next$', range_next, 'Range<integer>::next on concrete bounds')
+    ex.stub(r'<(std::ops::)?Range<[ui](8|16|32|64|size)> as IntoIterator>::into_iter$', lambda ex_, st, c, A: A[0], 'Range::into_iter')
 
     # ---- iterator with symbolic membership
     def si(st, a):
